@@ -606,6 +606,13 @@ func runChild(ck *Check, tier string, seed int64, sp batchSpec, nb int, outdir s
 	}
 	if n := len(raceRe.FindAllString(out, -1)); n > 0 {
 		for _, rep := range dedupRaces(out) {
+			if !strings.Contains(rep.text, "github.com/fsnotify/fsnotify") {
+				if res == nil {
+					res = newResult()
+				}
+				res.Broken = append(res.Broken, "data race wholly inside the harness: "+oneLine(rep.text, 500))
+				continue
+			}
 			extra = append(extra, Violation{Property: ck.ID, Signature: "data-race:" + rep.key, Text: rep.text, Batch: sp.idx, Case: lastCase, Race: sp.race})
 		}
 	}
